@@ -425,6 +425,12 @@ func main() {
 			i += sp.Neigh.Count(len(sp.TSeeds[c.SeedIdx].Data)) - 1 - (i - seedStart(sp, c.SeedIdx))
 		}
 	}
+	// and the length-field deviations beyond the header region of the same seeds
+	for j := int64(0); j < sp.DeepLen(); j++ {
+		if _, ok := firstOf(sp.DeepCase(j)); ok {
+			idx = append(idx, sp.NeighLen()+j)
+		}
+	}
 	full := 1<<len(universe) - 1
 	x := &ctx{}
 	// stale-state corpus: unmodified seeds of the three first layers
@@ -453,10 +459,10 @@ func main() {
 	}
 	phases := []enum.Phase{
 		{Name: "equivalence", Len: int64(len(idx)),
-			Describe: func(i int64) any { return sp.NeighCase(idx[i]).Describe() },
+			Describe: func(i int64) any { return sp.NeighDeepCase(idx[i]).Describe() },
 			Run: func(i int64, w *enum.Worker) {
 				x.w = w
-				c := sp.NeighCase(idx[i])
+				c := sp.NeighDeepCase(idx[i])
 				first, _ := firstOf(c)
 				w.Guard("harness", func() {
 					ref, ok := refDecode(c.Data, first)
@@ -541,7 +547,7 @@ func main() {
 				})
 			}},
 	}
-	r.Coverage["rule"] = "equivalence: every input of the deviation<=1 neighbourhoods of the Ethernet/IPv4/IPv6 seeds; reference = NewPacket(DSAD) observed through a wrapper builder (which decoder call failed, where SetTruncated was called); expected parser result = leading run of packet layers inside the set (hop-by-hop folded into IPv6) up to the first type outside the set or the first failing layer. Parsed with the full 12-member universe in 4 containers (map, sparse, array, custom slice) x filled by Put / by AddDecodingLayer, every 11-member subset, IgnoreUnsupported on/off, decoded pre-filled with junk; for unmodified seeds every one of the 4096 subsets and the two other first layers. Compared: error class, reported type list, Truncated, and (deep) every field of every reported preallocated object against the packet's layer. stale-state: every ordered pair (A,B), A an unmodified seed or a seed cut to two thirds of its length, B an unmodified seed with the same first layer, decoded into the same objects (map container with IgnorePanic off, array container with IgnorePanic on); B's result must equal B decoded into fresh objects, field by field. distinct_nontrivial = distinct (packet layer sequence, failing index) of the references."
+	r.Coverage["rule"] = "equivalence: every input of the deviation<=1 neighbourhoods of the Ethernet/IPv4/IPv6 seeds (header region, and the length-field deviations beyond it to the end of the seed); reference = NewPacket(DSAD) observed through a wrapper builder (which decoder call failed, where SetTruncated was called); expected parser result = leading run of packet layers inside the set (hop-by-hop folded into IPv6) up to the first type outside the set or the first failing layer. Parsed with the full 12-member universe in 4 containers (map, sparse, array, custom slice) x filled by Put / by AddDecodingLayer, every 11-member subset, IgnoreUnsupported on/off, decoded pre-filled with junk; for unmodified seeds every one of the 4096 subsets and the two other first layers. Compared: error class, reported type list, Truncated, and (deep) every field of every reported preallocated object against the packet's layer. stale-state: every ordered pair (A,B), A an unmodified seed or a seed cut to two thirds of its length, B an unmodified seed with the same first layer, decoded into the same objects (map container with IgnorePanic off, array container with IgnorePanic on); B's result must equal B decoded into fresh objects, field by field. distinct_nontrivial = distinct (packet layer sequence, failing index) of the references."
 	r.Coverage["stale_corpus"] = len(K)
 	r.Assumptions = []string{"field comparison by reflection over exported and unexported fields (nil slice == empty slice, the checksum back-pointer ignored)", "the wrapper PacketBuilder attributes failures and SetTruncated calls to decoder calls by nesting"}
 	enum.Main(r, phases)
